@@ -64,6 +64,13 @@ open_("C02", "D23", "C02/lost@f.txt:1", ["C02/lost@f.txt:5"],
 open_("C02", "D2", "C02/lost@f.txt:9", ["C02/lost@f.txt:10"],
       "history: AI session appends 2 lines to f.txt; `git stash push`; a commit inserts 2 lines at the top of f.txt; `git stash pop`; commit => the AI lines (now 9-10) are human because restore_stash_attributions copies the stashed line numbers (7-8) verbatim",
       "c02.stash_pop_after_upstream_inserted_above", ["stash_between_same_file"])
+open_("C02", "D29", "C03/unsound-note@f.txt:4", ["C03/unsound-blame@f.txt:4"],
+      "history: an AI session appends a token to line 4 of f.txt (written by a person), commit; the person replaces that token with an own one without any checkpoint; `git reset --soft HEAD~1`; commit => line 4, now entirely written by the person, is reported AI (reset, stash, switch and amend snapshot pending attribution without first recording the person's edits)",
+      "c02.person_replaces_ai_token_then_reset_soft", ["unreported_human_edit_before_rewrite"])
+open_("C02", "D30", "C03/unsound-note@b.txt:15", ["C03/unsound-blame@b.txt:15"],
+      "history (recorded script witnesses/d30_c02_11_1257.json): S1 inserts 5 lines into b.txt, commit; a person appends a token to one of S1's lines (line then human), S1 inserts 2 more lines, commit; S1 replaces 2 lines; `git reset --soft HEAD~1`; S1 inserts a line; `git stash`; a commit to another file; `git stash pop`; commit => the line the person modified (b.txt:15) is reported S1 again: content-based reconstruction after reset re-derives an intra-line change by another author wrongly",
+      "recorded:witnesses/d30_c02_11_1257.json", ["intraline_cross_author"])
+fixed("C03", "D31", "^fix: forced checkout/switch discards", "`git switch --discard-changes <current branch>` / `git checkout -f` with HEAD unchanged threw pending AI edits away but kept their working log; lines a person then typed at the same positions were committed as AI", "c03.force_switch_to_current_branch_discards_pending")
 fixed("C02", "D16a", "^fix: rebased commits no longer get notes", "after a plain two-commit rebase whose first commit did not touch f.txt, the note of the first rewritten commit listed the second commit's AI line of f.txt at its pre-rebase line number (a line the commit does not contain / a person's line)", "c02.rebase_first_commit_must_not_list_later_files")
 fixed("C02", "D11", "^fix: reset --soft/--mixed keeps pending", "pending AI lines in f.txt were dropped by `git reset --soft|--mixed HEAD~1` when the un-done commit only touched g.txt (reconstruct_working_log_after_reset rebuilt only files changed in the un-done range and deleted the old working log)", "c02.reset_of_unrelated_commit_keeps_pending")
 fixed("C02", "D25", "^fix: bare 'git stash' takes", "bare `git stash` (implicit push) skipped the pre-stash human checkpoint that `git stash push` runs, so a person's unreported insertion above pending AI lines left stale line numbers in the stash note and an AI line came back human after pop", "c02.bare_stash_after_unreported_human_edit")
